@@ -940,6 +940,28 @@ def shape_family():
   return res
 
 
+def large_family():
+  """deterministic family: constant displays around pytype's size thresholds (constant folding switches representation
+  at 64 elements, MAX_VAR_SIZE): sizes just below / at / above, the one non-conforming element at the first, 63rd, 64th,
+  65th, middle or last position or nowhere, as list / tuple / set / dict values against the element annotation"""
+  I, S = ("int",), ("str",)
+  out = []
+  for n in (62, 63, 64, 65, 66, 70, 130):
+    for pos in (None, 0, 62, 63, 64, 65, n // 2, n - 1):
+      if pos is not None and pos >= n:
+        continue
+      elems = [("str", "ab") if i == pos else ("int", i) for i in range(n)]
+      out.append((("list", I), ("list", elems)))
+      out.append((("seq", I), ("list", elems)))
+      out.append((("tuphom", I), ("tuple", elems)))
+      if n in (63, 64, 65, 70):
+        out.append((("list", ("union", [I, S])), ("list", elems)))
+        out.append((("set", I), ("set", elems)))
+        out.append((("dict", I, I), ("dict", [[("int", i), e] for i, e in enumerate(elems)])))
+        out.append((("iter", S), ("list", elems)))
+  return out
+
+
 def batches_of(pairs, rng, size=20):
   """split into modules of `size` pairs, each with its own generated hierarchy"""
   out = []
@@ -960,7 +982,7 @@ def correspond(res, rng, tier):
   del TIMED_OUT[:]
   drv = common.ensure_driver("drv_c02")
   nrand = 1000 if tier == "quick" else 6200
-  pairs = exhaustive_atoms() + shape_family()
+  pairs = exhaustive_atoms() + shape_family() + large_family()
   n_ex = len(pairs)
   seen = {json.dumps([tojson(a), tojson(v)]) for a, v in pairs}
   groups = [("exact", b) for b in batches_of(pairs, rng)]
